@@ -120,6 +120,8 @@ type World struct {
 	crashSentinel any
 	sleepUntil    time.Time
 	stamp         atomic.Int64
+	onceHeld      map[*sync.Once]*Task
+	pools         map[*sync.Pool][]any
 }
 
 // Task identity is goroutine-local: the runtime's per-goroutine profiler-label
@@ -150,7 +152,7 @@ func Run(t *testing.T, c *Choice, opt Options, body func(w *World)) (res *Result
 	}
 	res = &Result{Probes: map[string]int{}, Faults: map[string]int{}, States: map[string]int{}}
 	w := &World{C: c, T: t, Res: res, opt: opt,
-		parked: map[*Task]struct{}{}, extSeq: map[string]int{}}
+		parked: map[*Task]struct{}{}, extSeq: map[string]int{}, onceHeld: map[*sync.Once]*Task{}, pools: map[*sync.Pool][]any{}}
 	// crypto/rand.Reader is the repository's only randomness source (ids, nonces, challenges, uuids):
 	// replace it for the run by a full-entropy but deterministic stream derived from the choice stream.
 	oldRand := crand.Reader
@@ -295,8 +297,9 @@ func (w *World) spawn(id, site string, harness bool, f func()) *Task {
 		runtimeSetProfLabel(unsafe.Pointer(t))
 		defer func() {
 			if r := recover(); r != nil {
-				if w.crashSentinel != nil && r == w.crashSentinel {
-					// simulated process crash unwinding this task
+				if (w.crashSentinel != nil && r == w.crashSentinel) || strings.Contains(fmt.Sprint(r), CrashMarker) {
+					// simulated process crash unwinding this task (possibly re-panicked by a library
+					// such as singleflight, which wraps the value but keeps its text)
 				} else {
 					w.recordPanic(t, r)
 				}
@@ -321,6 +324,9 @@ func (w *World) spawn(id, site string, harness bool, f func()) *Task {
 func (w *World) Spawn(name string, f func()) *Task {
 	return w.spawn(name, "harness", true, f)
 }
+
+// CrashMarker is the text every simulated-crash panic value carries.
+const CrashMarker = "verifsim: simulated node crash"
 
 // SetCrashSentinel registers the panic value used to unwind tasks of a
 // crashed node; such panics are not reported.
@@ -677,4 +683,91 @@ func (d *detRand) Read(p []byte) (int, error) {
 	d.mu.Lock()
 	defer d.mu.Unlock()
 	return d.r.Read(p)
+}
+
+// OnceEnter implements verifhook.Runtime.
+func (w *World) OnceEnter(o *sync.Once) {
+	if w.free.Load() {
+		return
+	}
+	t := w.taskFor("once.enter")
+	if t.suppress > 0 {
+		return
+	}
+	w.park(t, "once.Do", false, 0)
+	for {
+		e := w.epoch.Load()
+		w.mu.Lock()
+		holder := w.onceHeld[o]
+		if holder == nil || holder == t {
+			w.onceHeld[o] = t
+			w.mu.Unlock()
+			return
+		}
+		w.mu.Unlock()
+		if w.free.Load() {
+			return
+		}
+		w.park(t, "once.wait", true, e)
+	}
+}
+
+// OnceLeave implements verifhook.Runtime.
+func (w *World) OnceLeave(o *sync.Once) {
+	w.mu.Lock()
+	if t := w.onceHeld[o]; t != nil {
+		if p := runtimeGetProfLabel(); p == nil || (*Task)(p) == t {
+			delete(w.onceHeld, o)
+		}
+	}
+	w.mu.Unlock()
+	w.epoch.Add(1)
+}
+
+// PoolGet implements verifhook.Runtime.
+func (w *World) PoolGet(p *sync.Pool) any {
+	w.mu.Lock()
+	l := w.pools[p]
+	if n := len(l); n > 0 {
+		x := l[n-1]
+		w.pools[p] = l[:n-1]
+		w.mu.Unlock()
+		return x
+	}
+	w.mu.Unlock()
+	if p.New != nil {
+		return p.New()
+	}
+	return nil
+}
+
+// PoolPut implements verifhook.Runtime.
+func (w *World) PoolPut(p *sync.Pool, x any) {
+	w.mu.Lock()
+	if len(w.pools[p]) < 64 {
+		w.pools[p] = append(w.pools[p], x)
+	}
+	w.mu.Unlock()
+}
+
+// SelectOrder implements verifhook.Runtime: a rotation of the source order, drawn right after the
+// yield the instrumenter places before every select (so the draw is race-free).
+func (w *World) SelectOrder(n int) []int {
+	if w.free.Load() || n < 2 {
+		return nil
+	}
+	t := w.taskFor("select")
+	k := 0
+	if t.suppress == 0 {
+		w.park(t, "select.order", false, 0)
+		if w.free.Load() {
+			return nil
+		}
+		k = w.C.Intn(n, "select.order")
+	}
+	out := make([]int, n)
+	for i := range out {
+		out[i] = (i + k) % n
+	}
+	return out
 }
